@@ -2,7 +2,8 @@
 
     Stream "tree": a sequence of [Add]s on a fresh radixtree.Tree (with the
     repository's values constraint) followed by lookups.  Stream "repo": rule
-    sets loaded into a fresh repository followed by [FindRule]s.  A case holds
+    sets loaded into a fresh repository followed by [FindRule]s.  Stream "history":
+    create / update / delete of rule sets, then [FindRule]s (see below).  A case holds
     the inputs and what the implementation answered.  Per case:
 
     - the index content is built from the Adds / rule sets the IMPLEMENTATION
